@@ -151,6 +151,10 @@ func main() {
 		add("Formulas.lean", c, e)
 	}
 	{
+		c, e := passCT(root)
+		add("CTGen.lean", c, e)
+	}
+	{
 		c, e := passTable(root)
 		for n, s := range c {
 			add(n, s, nil)
